@@ -3,6 +3,7 @@
 #include <functional>
 #include <initializer_list>
 #include <iterator>
+#include <memory>
 #include <optional>
 #include <set>
 #include <type_traits>
@@ -240,6 +241,10 @@ class SmallSet {
   template <class InputIt>
   SmallSet(InputIt first, InputIt last, const Alloc &alloc) : SmallSet(first, last, Compare(), alloc) {}
 
+  SmallSet(const SmallSet &o) = default;
+
+  SmallSet(SmallSet &&o) = default;
+
   SmallSet(const SmallSet &o, const Alloc &alloc) : _vec(o._vec), _set(o._set, alloc) {}
 
   SmallSet(SmallSet &&o, const Alloc &alloc) : _vec(std::move(o._vec)), _set(std::move(o._set), alloc) {}
@@ -248,6 +253,27 @@ class SmallSet {
       : SmallSet(list.begin(), list.end(), comp, alloc) {}
 
   SmallSet(std::initializer_list<T> list, const Alloc &alloc) : SmallSet(list, Compare(), alloc) {}
+
+  SmallSet &operator=(const SmallSet &o) {
+    if (this != std::addressof(o)) {
+      try {
+        _vec = o._vec;
+        _set = o._set;
+      } catch (...) {
+        // copy assignment of the containers only has the basic guarantee: the small container may hold a mix of old
+        // and new elements (with duplicates), and both containers may hold elements. Give them all up (as
+        // std::flat_set does) so that this object stays a set.
+        _vec.clear();
+        _set.clear();
+        throw;
+      }
+    }
+    return *this;
+  }
+
+  SmallSet &operator=(SmallSet &&o) = default;
+
+  ~SmallSet() = default;
 
   SmallSet &operator=(std::initializer_list<T> list) {
     clear();
